@@ -113,7 +113,7 @@ fn collect_points(body: &[Stmt], path: &mut Vec<(usize, usize)>, live: bool, con
     }
 }
 
-fn invoked_macros(body: &[Stmt], live: bool, consts: &BTreeMap<String, Value>, out: &mut BTreeSet<String>) {
+pub fn invoked_macros(body: &[Stmt], live: bool, consts: &BTreeMap<String, Value>, out: &mut BTreeSet<String>) {
     for s in body {
         match s {
             Stmt::MacroCall { name, .. } if live => {
